@@ -661,7 +661,12 @@ impl CompactionWorker {
                         // Prioritize compacting an immutable memtable if there is one
                         let memtable_compaction_start = Instant::now();
                         let mut db_mutex_guard = db_state.guarded_db_fields.lock();
-                        if db_mutex_guard.maybe_immutable_memtable.is_some() {
+                        // Once the database is in its error state a flush cannot be recorded in
+                        // the manifest any more. Attempting it again for every remaining entry of
+                        // this loop would write a complete table file each time for nothing.
+                        if db_mutex_guard.maybe_immutable_memtable.is_some()
+                            && db_mutex_guard.maybe_bad_database_state.is_none()
+                        {
                             CompactionWorker::compact_memtable(
                                 db_state,
                                 &mut db_mutex_guard,
